@@ -195,6 +195,8 @@ def build_operand(world, ai, r):
         if r.get('layout', 'canon') == 'canon':
             return alg.multivector(values=vals)
         return alg.multivector(keys=tuple(range(2 ** alg.d)), values=vals)
+    if k == 'same':
+        return build_operand(world, ai, r['of'])     # (only reached when there is no previous operand)
     if k == 'sh':
         return world.shared_operand(r['i'])
     if k == 'call0':
@@ -226,8 +228,18 @@ def perform_raw(world, op):
     if kind == 'register':
         world.register(ai, op['fn'])
         return None
-    args = [build_operand(world, ai, r) for r in op.get('args', [])]
+    args = build_operands(world, ai, op.get('args', []))
     return apply_op(world, op, args)
+
+
+def build_operands(world, ai, recipes):
+    args = []
+    for r in recipes:
+        if r.get('k') == 'same' and args:
+            args.append(args[-1])           # the very same object once more (x * x, x >> x)
+        else:
+            args.append(build_operand(world, ai, r))
+    return args
 
 
 def apply_op(world, op, args):
